@@ -36,6 +36,15 @@ CLAIMED = {
               'is_valid and the description table.'),
         note=('Trusted: Lean kernel; propext, Quot.sound, Classical.choice; model of std::lower_bound as libstdc++ bisection; string keys handled through an order-preserving integer code '
               '(checked against native comparison by the Python oracle); harness/tables.cpp; only FIX42UTEST is dumped; Boolean fields are exercised on Y/N only (other text is not a value of the type).')),
+    'C12': dict(
+        category='proof', design_ref='DESIGN.md section 7 C12',
+        technique='Lean 4 refinement theorem (induction over operation histories; bisection invariants for lower/upper_bound; splice lemma) + generated tables proved sorted by decide + differential correspondence on the real tables and on presorted_set histories',
+        text=('Kernel-checked: C12_table_find (GeneratedTable::_find hits exactly present keys and returns that key\'s entry on a strictly sorted table), C12_utest_tables_sorted (field table, message table and all '
+              '46 per-message trait tables dumped from the freshly compiled schema are strictly sorted), C12_presorted_history (for every history of insert/find/clear the presorted_set model answers exactly '
+              'like a set of unique keys and its array stays strictly sorted; includes the reallocation branch). Correspondence: find_be / table lookups / reverse name lookup over tags, every msgtype and '
+              'near misses, every per-message trait set, and random histories on presorted_set<long,Item> and on the FieldTrait specialisation (Presence).'),
+        note=('Trusted: Lean kernel; propext, Quot.sound, Classical.choice; bisection model of std::lower_bound/upper_bound; memmove/memcpy as list splice; the hash-array fast path of the generated trait sets is '
+              'validated by correspondence only; harness/tables.cpp. Known finding (documented, outside the map contract): insert returns a dangling iterator after reallocation.')),
 }
 
 PENDING_REASON = 'not yet covered: the Lean model and correspondence harness for this property have not been built in this framework yet (see DESIGN.md section 7 for the plan); no other technique is substituted'
